@@ -5,14 +5,14 @@ seed=${1:-1}
 cd /verif
 for d in seeded/*/; do
   id=$(basename $d); prop=$(python3 -c "import json;print(json.load(open('$d/meta.json'))['breaks'])")
-  git -C /repo checkout -q -- .
-  if ! git -C /repo apply --3way $PWD/$d/patch.diff 2>/dev/null; then
-    if ! git -C /repo apply $PWD/$d/patch.diff 2>/dev/null; then echo "$id $prop PATCH-DOES-NOT-APPLY"; continue; fi
+  git -C /repo checkout -q HEAD -- .
+  if ! git -C /repo apply $PWD/$d/patch.diff 2>/dev/null; then
+    if ! git -C /repo apply --3way $PWD/$d/patch.diff 2>/dev/null; then git -C /repo checkout -q HEAD -- .; echo "$id $prop PATCH-DOES-NOT-APPLY"; continue; fi
   fi
   git -C /repo reset -q
   out=$(VERIF_SEED=$seed ./check $prop quick 2>&1)
   n=$(echo "$out" | grep -c "^VIOLATION")
   rules=$(echo "$out" | grep -oE "^  C[0-9]+/[a-z0-9-]+" | sort -u | tr -d ' ' | tr '\n' ' ')
   echo "$id $prop violations=$n $rules"
-  git -C /repo checkout -q -- .
+  git -C /repo checkout -q HEAD -- .
 done
